@@ -1,5 +1,6 @@
 """Module implementing the nautilus bound."""
 
+import copy
 import numpy as np
 from functools import partial
 from threadpoolctl import threadpool_limits
@@ -170,7 +171,10 @@ class NautilusBound():
 
     @threadpool_limits.wrap(limits=1)
     def _reset_and_sample(self, n_points=100, rng=None):
-        """Reset the bound, sample points internally and return the result.
+        """Reset a copy of the bound, sample points and return the copy.
+
+        The bound itself is not changed. Pools running in the same process,
+        e.g., thread pools, pass the bound itself and not a copy to each job.
 
         Parameters
         ----------
@@ -183,12 +187,13 @@ class NautilusBound():
         Returns
         -------
         bound : NautilusBound
-            The bound.
+            Copy of the bound holding the sampled points.
 
         """
-        self.reset(rng=rng)
-        self.sample(n_points=n_points, return_points=False)
-        return self
+        bound = copy.deepcopy(self)
+        bound.reset(rng=rng)
+        bound.sample(n_points=n_points, return_points=False)
+        return bound
 
     def sample(self, n_points=100, return_points=True, pool=None):
         """Sample points from the the bound.
